@@ -282,6 +282,98 @@ Theorem C20_no_key_clear :
 Proof. exact originate_no_key. Qed.
 Print Assumptions C20_no_key_clear.
 
+(* ERROR direction with the caller's registry of exception classes: a ciphertext the caller cannot open yields the explicit
+   decrypt error for EVERY registry and EVERY constructor oracle — a class registered for the error URI is never built *)
+Theorem C20_tamper_never_delivered_error_registered :
+  forall (V P C : Type) (open : secret -> C -> option P) (loads : P -> option (envelope V)) 
+    (MV : Type) (enc_note : string -> V) (construct : cls -> shape -> list V -> kw V -> ctor_result V MV)
+    (reg : registry) (r : keyring) (error : string) (e : encoded C) (rtype req : N) 
+    (meta : string -> option MV),
+  (forall s : secret, get_box r true error = Some s -> open s (e_payload e) = None) ->
+  exception_from_message_codec V P C open loads MV enc_note construct reg (Some r) rtype req error 
+    (Encoded e) meta = (Ok (enc_exn V MV enc_note ENC_DECRYPT_ERROR), false).
+Proof. exact error_unopenable_registered. Qed.
+Print Assumptions C20_tamper_never_delivered_error_registered.
+
+(* the same for an ERROR sealed under another secret *)
+Theorem C20_wrong_key_error_registered :
+  forall (V P C nonce : Type) (seal : secret -> nonce -> P -> C) (open : secret -> C -> option P)
+    (loads : P -> option (envelope V)),
+  aead_ok seal open ->
+  forall (MV : Type) (enc_note : string -> V) (construct : cls -> shape -> list V -> kw V -> ctor_result V MV)
+    (reg : registry) (r : keyring) (error : string) (s : secret) (n : nonce) (p : P) 
+    (rtype req : N) (meta : string -> option MV),
+  (forall s' : secret, get_box r true error = Some s' -> s <> s') ->
+  exception_from_message_codec V P C open loads MV enc_note construct reg (Some r) rtype req error
+    (Encoded {| e_payload := seal s n p; e_algo := "cryptobox"; e_serializer := Some "json"; e_key := None |})
+    meta = (Ok (enc_exn V MV enc_note ENC_DECRYPT_ERROR), false).
+Proof. exact error_wrong_key_registered. Qed.
+Print Assumptions C20_wrong_key_error_registered.
+
+(* an ERROR payload sealed for another URI: explicit mismatch error; the foreign args never reach a registered class *)
+Theorem C20_uri_binding_error_registered :
+  forall (V P C nonce : Type) (seal : secret -> nonce -> P -> C) (open : secret -> C -> option P)
+    (dumps : envelope V -> option P) (loads : P -> option (envelope V)),
+  aead_ok seal open ->
+  json_ok dumps loads ->
+  (recv V -> V) ->
+  forall (MV : Type) (enc_note : string -> V) (construct : cls -> shape -> list V -> kw V -> ctor_result V MV)
+    (reg : registry) (r : keyring) (uri inner : string) (s : secret) (n : nonce) (p : P) 
+    (a : option (list V)) (k : option (kw V)) (rtype req : N) (meta : string -> option MV),
+  inner <> uri ->
+  dumps (Some inner, a, k) = Some p ->
+  get_box r true uri = Some s ->
+  exception_from_message_codec V P C open loads MV enc_note construct reg (Some r) rtype req uri
+    (Encoded {| e_payload := seal s n p; e_algo := "cryptobox"; e_serializer := Some "json"; e_key := None |})
+    meta = (Ok (enc_exn V MV enc_note ENC_TRUSTED_URI_MISMATCH), false).
+Proof. exact error_uri_binding_registered. Qed.
+Print Assumptions C20_uri_binding_error_registered.
+
+(* whatever _exception_from_message returns for an encrypted ERROR is one of the three explicit encryption errors, or the
+   registry/constructors worked on args and kwargs sealed under the caller's own secret for exactly this error URI *)
+Theorem C20_delivered_authentic_error_registered :
+  forall V P C nonce : Type,
+  (sk -> pk) ->
+  (sk -> pk -> secret) ->
+  forall (seal : secret -> nonce -> P -> C) (open : secret -> C -> option P) (loads : P -> option (envelope V)),
+  aead_ok seal open ->
+  forall (MV : Type) (enc_note : string -> V) (construct : cls -> shape -> list V -> kw V -> ctor_result V MV)
+    (reg : registry) (codec : option keyring) (error : string) (e : encoded C) (rtype req : N)
+    (meta : string -> option MV),
+  (exists u : string,
+     (u = ENC_NO_PAYLOAD_CODEC \/ u = ENC_DECRYPT_ERROR \/ u = ENC_TRUSTED_URI_MISMATCH) /\
+     exception_from_message_codec V P C open loads MV enc_note construct reg codec rtype req error 
+       (Encoded e) meta = (Ok (enc_exn V MV enc_note u), false)) \/
+  (exists (r : keyring) (s : secret) (n : nonce) (p : P) (a : option (list V)) (k : option (kw V)),
+     codec = Some r /\
+     get_box r true error = Some s /\
+     e_payload e = seal s n p /\
+     loads p = Some (Some error, a, k) /\
+     exception_from_message_codec V P C open loads MV enc_note construct reg codec rtype req error 
+       (Encoded e) meta =
+     exception_from_message construct reg
+       {| m_rtype := rtype; m_request := req; m_error := error; m_args := a; m_kwargs := k; m_meta := meta |}).
+Proof. exact error_authentic_registered. Qed.
+Print Assumptions C20_delivered_authentic_error_registered.
+
+(* round trip with a registry: the caller maps exactly the (args, kwargs) the callee encoded (C18 applies from there) *)
+Theorem C20_roundtrip_error_registered :
+  forall (V P C nonce : Type) (seal : secret -> nonce -> P -> C) (open : secret -> C -> option P)
+    (dumps : envelope V -> option P) (loads : P -> option (envelope V)),
+  aead_ok seal open ->
+  json_ok dumps loads ->
+  forall (MV : Type) (enc_note : string -> V) (construct : cls -> shape -> list V -> kw V -> ctor_result V MV)
+    (reg : registry) (ra rb : keyring) (error : string) (a : option (list V)) (k : option (kw V)) 
+    (n : nonce) (s : secret) (b : body V C) (rtype req : N) (meta : string -> option MV),
+  get_box ra true error = Some s ->
+  get_box rb false error = Some s ->
+  error_body V P C nonce seal dumps (Some rb) error a k n = Sent b ->
+  exception_from_message_codec V P C open loads MV enc_note construct reg (Some ra) rtype req error b meta =
+  exception_from_message construct reg
+    {| m_rtype := rtype; m_request := req; m_error := error; m_args := a; m_kwargs := k; m_meta := meta |}.
+Proof. exact roundtrip_error_registered. Qed.
+Print Assumptions C20_roundtrip_error_registered.
+
 (* ---------------------------------------------------------------- non-vacuity: a toy authenticated cipher *)
 (* ciphertext = the sealing secret, the nonce and the plaintext in the open, or garbage; it satisfies the assumed
    laws, so the theorems above are not vacuous; the same instance runs in the correspondence (Model/CryptoboxRun.v) *)
@@ -327,3 +419,17 @@ Example C20_witness_directions :
     (exists s, inv (Some ring2) "com.myapp.proc" b 8 = ErrorReply ENC_DECRYPT_ERROR s) /\
     (exists s, inv None "com.myapp.proc" b 8 = ErrorReply ENC_NO_PAYLOAD_CODEC s).
 Proof. vm_compute. eexists. repeat split; eexists; reflexivity. Qed.
+
+(* the ERROR direction with a class (10, accepting anything) registered at the caller for the error URI: authentic
+   error -> that class built from the decrypted args; garbage / swapped URI -> explicit errors, class not built *)
+Example C20_witness_error_registered :
+  let reg := fst (define (fun _ => true) init_registry (DefExplicit 10 "com.myapp.error1")) in
+  let reg2 := fst (define (fun _ => true) reg (DefExplicit 10 "com.myapp.error2")) in
+  let construct := fun (c : cls) (_ : shape) (a : list N) (k : kw N) => CtorOk (MV:=N) (mkCexn c None a (Some k) true [] []) in
+  let efm := exception_from_message_codec N (envelope N) toyC toy_open (fun p => Some p) N (fun _ => 0) construct in
+  let sealed := Encoded (mkEnc (Sealed 22 7 (Some "com.myapp.error1", Some [1; 2], Some [("k", 3)])) "cryptobox" (Some "json") None) in
+  fst (efm reg (Some ex_ring) 48 1 "com.myapp.error1" sealed no_meta) = Ok (mkCexn 10 None [1; 2] (Some [("k", 3)]) true [] []) /\
+  fst (efm reg (Some ex_ring) 48 1 "com.myapp.error1" (Encoded (mkEnc Garbage "cryptobox" (Some "json") None)) no_meta)
+    = Ok (enc_exn N N (fun _ => 0) ENC_DECRYPT_ERROR) /\
+  fst (efm reg2 (Some ex_ring) 48 1 "com.myapp.error2" sealed no_meta) = Ok (enc_exn N N (fun _ => 0) ENC_TRUSTED_URI_MISMATCH).
+Proof. vm_compute. repeat split; reflexivity. Qed.
